@@ -276,10 +276,20 @@ func (e *eng) genReq(id, conn int) *reqPlan {
 	}
 	if e.spoof {
 		// C29: headers a client could use to pretend another address
+		peerIP := ""
+		if conn < len(e.peerAddr) {
+			peerIP = e.peerAddr[conn][:strings.LastIndex(e.peerAddr[conn], ":")]
+		}
 		for _, h := range []string{"X-Real-Ip", "X-Real-Port", "X-Forwarded-For", "X-Forwarded-Port", "Clientip", "X-Bfe-Ip"} {
 			if tp.Chance(1, 2, "spoof_hdr") {
-				v := []string{"6.6.6.6", "10.9.9.9", "not-an-ip", "1.2.3.4, 5.6.7.8", "65000"}[tp.Draw(5, "spoof_val")]
-				p.Fields = append(p.Fields, href.Field{h, v})
+				// values: other addresses, junk, lists, and an address that only textually ends like the peer's
+				vals := []string{"6.6.6.6", "10.9.9.9", "not-an-ip", "1.2.3.4, 5.6.7.8", "65000", "10.9.9.9, 2" + peerIP, "1" + peerIP}
+				p.Fields = append(p.Fields, href.Field{h, vals[tp.Draw(len(vals), "spoof_val")]})
+				if tp.Chance(1, 3, "spoof_repeat") {
+					// the same field once more, possibly in another letter case
+					n := []string{h, strings.ToLower(h), strings.ToUpper(h)}[tp.Draw(3, "spoof_case")]
+					p.Fields = append(p.Fields, href.Field{n, vals[tp.Draw(len(vals), "spoof_val2")]})
+				}
 			}
 		}
 	}
@@ -307,6 +317,10 @@ func (e *eng) genReq(id, conn int) *reqPlan {
 	if tp.Chance(1, 3, "conn_listed") {
 		p.Fields = append(p.Fields, href.Field{"X-Hop-Private", "secret"})
 		conn_tokens = append(conn_tokens, "X-Hop-Private")
+	}
+	if e.spoof && tp.Chance(1, 3, "conn_lists_addr_hdr") {
+		// naming the address headers as connection options must not make BFE drop the ones it sets itself
+		conn_tokens = append(conn_tokens, []string{"X-Real-Ip", "X-Forwarded-For", "X-Real-Port", "x-real-ip, x-forwarded-for"}[tp.Draw(4, "conn_addr_which")])
 	}
 	switch tp.Draw(4, "conn_hdr") {
 	case 1:
